@@ -291,6 +291,21 @@ def normalise_worklists(fn):
     return made
 
 
+# an unsuffixed integer literal of a non-negative quantity prints the same decimal text whichever of these constructors makes it and through
+# whichever value-preserving cast the quantity gets there: one normal form, Literal::usize_unsuffixed(x as usize).  Narrowing or sign-changing
+# forms (u8 / u16 / i8 / i16 / i32 / isize ..) stay as written and are judged by the rules.
+WIDE_UNSUFFIXED = ('usize_unsuffixed', 'u32_unsuffixed', 'u64_unsuffixed', 'u128_unsuffixed', 'i64_unsuffixed', 'i128_unsuffixed')
+WIDE_CASTS = ('usize', 'u32', 'u64', 'u128', 'i64', 'i128')
+
+
+def unsuffixed(x, ctor='usize_unsuffixed'):
+    if ctor == 'usize_unsuffixed' and x[0] != 'cast':
+        return ('call', 'Literal::usize_unsuffixed', [x])       # a usize quantity (a length, a count) printed as it is
+    while x[0] == 'cast' and x[2] in WIDE_CASTS:
+        x = x[1]
+    return ('call', 'Literal::usize_unsuffixed', [('cast', x, 'usize')])
+
+
 class Crate:
     """items of the crate, organised by module, with use-tables for path resolution"""
 
@@ -1175,6 +1190,20 @@ class Interp:
                 if c != TRUE:
                     conds.append(c)
             return conds[0] if len(conds) == 1 else ('and', conds)
+        if k == 'PSlice' and not pat['elems']:
+            # `[]`: the sequence is empty - the complement of `[first, rest @ ..]`
+            return self.neg(('is', ('mcall', scrut, 'split_first', []), 'Some'))
+        if k == 'PSlice' and len(pat['elems']) == 2 and pat['elems'][1].get('k') in ('PIdent', 'PRest') and \
+                (pat['elems'][1]['k'] == 'PRest' or (pat['elems'][1].get('sub') or {}).get('k') == 'PRest'):
+            # `[first, rest @ ..]` is `Some((first, rest)) = seq.split_first()`
+            sf = ('mcall', scrut, 'split_first', [])
+            conds = [('is', sf, 'Some')]
+            c = self.bind(pat['elems'][0], ('tf', ('unwrap', sf), 0), env)
+            if c != TRUE:
+                conds.append(c)
+            if pat['elems'][1]['k'] == 'PIdent':
+                env[pat['elems'][1]['name']] = ('tf', ('unwrap', sf), 1)
+            return conds[0] if len(conds) == 1 else ('and', conds)
         if k in ('PTuple', 'PSlice'):
             conds = []
             if scrut[0] == 'elem':
@@ -1279,6 +1308,11 @@ class Interp:
                                   let_mut=st['pat'].get('mut', False))
                 finally:
                     self.frame['let_ty'] = ''
+                lt = (st.get('ty') or '').replace(' ', '')
+                if 'Punctuated<' in lt and lt.rstrip('>').endswith(('Token![,]', 'Comma', 'token::Comma')) and v[0] in ('star', 'tuple', 'acc'):
+                    # syn's Punctuated<T, Token![,]> collected from a sequence prints its elements separated by commas (no trailing comma):
+                    # interpolating it is `#(#xs),*`
+                    v = ('punct', v, ',')
                 c = self.bind(st['pat'], v, env)
                 if st.get('else') is not None and c != TRUE:
                     # let-else: diverging branch, then the rest of the block runs under the pattern's condition
@@ -1423,6 +1457,9 @@ class Interp:
 
     def e_StructLit(self, e, env, **kw):
         p = self.resolve(e['path']['segs'])
+        if p in ('syn::Index', 'Index') and any(f['name'] == 'index' for f in e['fields']):
+            # syn::Index { index, span } prints the unsuffixed decimal literal `index`
+            return unsuffixed([self.expr(f['expr'], env) for f in e['fields'] if f['name'] == 'index'][0])
         return ('struct', p, {f['name']: self.expr(f['expr'], env) for f in e['fields']})
 
     def e_Block(self, e, env, **kw):
@@ -1697,6 +1734,8 @@ class Interp:
                     nxt[0] += 1
                 return '{' + spec + '}'
             norm = re.sub(r'\{([A-Za-z_][A-Za-z0-9_]*|[0-9]+)?(:[^}]*)?\}', sub, tmpl.replace('{{', '\x00').replace('}}', '\x01')).replace('\x00', '{{').replace('\x01', '}}')
+            if norm == '{}' and len(ordered) == 1:
+                return ordered[0]       # format!("{}", x) is the text of x (to_string() is an identity on text in this domain, see IDENTITY)
             return ('fmt', norm, ordered, [])
         if n in ('panic', 'todo', 'unimplemented', 'unreachable'):
             return ('diverge', n, e['line'])
@@ -1711,6 +1750,12 @@ class Interp:
                     self.accs[aid]['entries'].append({'cond': self.pathcond(), 'val': self.expr(a, env), 'loops': list(self.frame['loops']), 'line': e['line']})
                 return ('acc', aid)
             return ('tuple', [self.expr(a, env) for a in args])
+        if n == 'assert' and (e.get('args') or []):
+            # assert!(cond, ..) is `if !cond { panic!(..) }`
+            c = self.cond(e['args'][0], env)
+            self.effect_at(self.neg(c), 'diverge', what='panic', line=e['line'])
+            self.frame['conds'].append(c)       # what follows runs under the asserted condition
+            return ('tuple', [])
         if n in ('eprintln', 'println', 'eprint', 'print', 'debug_assert', 'assert', 'assert_eq', 'debug_assert_eq'):
             if n.startswith(('assert', 'debug_assert')):
                 self.effect('diverge', what=n, line=e['line'])
@@ -1725,6 +1770,12 @@ class Interp:
         t = ('tmpl', tid, items, self.frame['callee'])
         self.templates.setdefault(tid, {'fn': self.frame['callee'], 'line': e['line'], 'text': self.tmpl_text(items)})
         return t
+
+    def synthetic_tmpl(self, toks, env, e):
+        tid = f"{self.c.relfile(self.c.fns[self.frame['callee']]['file'])}:{e['line']}"
+        items = self.tmpl_items(toks, env, e)
+        self.templates.setdefault(tid, {'fn': self.frame['callee'], 'line': e['line'], 'text': self.tmpl_text(items)})
+        return ('tmpl', tid, items, self.frame['callee'])
 
     def acc_view(self, v):
         """a Vec filled by exactly one `push` inside one finished loop is the same list as the corresponding iterator chain:
@@ -1800,7 +1851,10 @@ class Interp:
                     if v is None:
                         v = self.unknown('quote hole #' + nx['v'] + ' not bound', node)
                     v = self.acc_view(v)
-                    items.append(('hole', nx['v'], v))
+                    if v[0] == 'punct':
+                        items.append(('rep', [('hole', nx['v'], self.acc_view(v[1]))], v[2]))
+                    else:
+                        items.append(('hole', nx['v'], v))
                     i += 2
                     continue
                 if nx['t'] == 'g' and nx['d'] == '(':
@@ -1870,6 +1924,14 @@ class Interp:
                 self.accs[aid] = {'entries': [], 'fn': self.frame['fn'], 'name': let_name, 'line': e['line'], 'ts': True,
                                   'site': f"{self.c.relfile(self.c.fns[self.frame['callee']]['file'])}:{e['line']}", 'callee': self.frame['callee']}
                 return ('acc', aid)
+            if last in ('new', 'default') and len(segs) >= 2 and segs[-2] == 'TokenStream' and not args:
+                return self.synthetic_tmpl([], env, e)        # the empty token stream is quote!()
+            if last == 'from_iter' and len(segs) >= 2 and segs[-2] == 'TokenStream' and len(args) == 1:
+                # TokenStream::from_iter(xs) concatenates the streams: quote!(#(#xs)*)
+                env2 = env.child()
+                env2['__ts_items'] = args[0]
+                toks = [{'t': 'p', 'v': '#'}, {'t': 'g', 'd': '(', 's': [{'t': 'p', 'v': '#'}, {'t': 'i', 'v': '__ts_items'}]}, {'t': 'p', 'v': '*'}]
+                return self.synthetic_tmpl(toks, env2, e)
             if p in ('std::iter::once', 'core::iter::once', 'iter::once') and len(args) == 1:
                 return ('tuple', [args[0]])
             if last == 'new' and len(segs) >= 2 and segs[-2] == 'Ident':
@@ -1879,7 +1941,12 @@ class Interp:
             if last in ('call_site',) and len(segs) >= 2 and segs[-2] == 'Span':
                 return ('call', 'Span::call_site', [])
             if len(segs) >= 2 and segs[-2] == 'Literal' and not p.startswith('naga::'):
+                if last in WIDE_UNSUFFIXED and len(args) == 1:
+                    return unsuffixed(args[0], last)
                 return ('call', 'Literal::' + last, args)
+            if len(segs) >= 2 and segs[-2] == 'Index' and last == 'from' and len(args) == 1 and p.startswith(('syn::', 'Index::')):
+                # syn::Index::from(n) prints the unsuffixed decimal literal n (it asserts n < u32::MAX)
+                return unsuffixed(args[0])
             return ('call', p, args)
         callee = self.expr(f, env)
         if callee[0] == 'closure':
@@ -2078,6 +2145,10 @@ class Interp:
             return self.neg(recv[1]) if recv[0] == 'opt' else ('not', ('t', ('is_some', recv)))
         # closures ---------------------------------------------------------------------------------------------------------
         args_nodes = e['args']
+        if m == 'map_or_else' and len(args_nodes) == 2 and self.is_optionish(recv, e['recv']):
+            # opt.map_or_else(d, f) is opt.map(f).unwrap_or_else(d)
+            mapped = self.opt_method('map', recv, args_nodes[1:], env)
+            return self.unwrap_or(mapped, self.apply(self.expr(args_nodes[0], env), []))
         if m in ('map', 'filter', 'filter_map', 'flat_map', 'any', 'all', 'find', 'for_each', 'position', 'inspect', 'and_then', 'unwrap_or_else',
                  'map_err', 'find_map', 'map_or', 'is_some_and', 'then', 'or_else', 'take_while', 'skip_while', 'max_by_key', 'min_by_key'):
             if m in ('map', 'and_then', 'map_or', 'is_some_and') and self.is_optionish(recv, e['recv']):
